@@ -261,10 +261,78 @@ fn oracle(k: usize, n_max: usize, p: &Vec<Vec<f64>>) -> Out {
     out
 }
 
+/// constant-word RNG: every unit draw answers c = (w >> 11) / 2^53, every range draw the same fraction of its span
+#[derive(Clone)]
+struct ConstRng(u64);
+impl rand::RngCore for ConstRng {
+    fn next_u32(&mut self) -> u32 {
+        (self.0 >> 32) as u32
+    }
+    fn next_u64(&mut self) -> u64 {
+        self.0
+    }
+}
+
+/// Stage 0 - the gap law far beyond the enumerable horizon. The exact masses below stop at n/k in the hundreds; the skip phase,
+/// however, runs for the rest of the stream with a keep-probability p = k / (i + 2) that shrinks towards the resolution of the
+/// arithmetic. Under one fixed environment answer (every unit draw = c) the sampler is deterministic: it is run for n adds and
+/// EVERY gap it draws (read through the skip_until hook) is compared with the inverse-CDF geometric gap floor(ln u / ln(1 - p)),
+/// u = 1 - c, evaluated in f64 at the position where it was drawn (tolerance 1 + 1e-9 * gap for the floor).
+fn gap_law(k: usize, word: u64, n: usize) -> (u64, Option<Viol>) {
+    let c = (word >> 11) as f64 * (1.0 / ((1u64 << 53) as f64));
+    let u = 1.0 - c;
+    let mut r: ReservoirSampling<u32, ConstRng> = ReservoirSampling::new(k, ConstRng(word));
+    let mut last = r.verif_skip_until();
+    let mut draws = 0u64;
+    for i in 0..n {
+        if let Err(p) = mccore::panics::catch(|| r.add(0)) {
+            return (draws, Some(Viol { property: "C05".into(), signature: format!("reservoir(k={}) long stream panics", k), message: format!("k={}, every unit draw = {}: add #{} panicked: {}", k, c, i + 1, p), replay: json!({"k": k, "unit_draw": c, "adds": i + 1}) }));
+        }
+        let s = r.verif_skip_until();
+        if s != last {
+            draws += 1;
+            last = s;
+            let p = k as f64 / (i + 2) as f64;
+            let want = (u.ln() / (1.0 - p).ln()).floor();
+            let got = s.checked_sub(i + 1).map(|g| g as f64).unwrap_or(-1.0);
+            if (got - want).abs() > 1.0 + 1e-9 * want {
+                return (draws, Some(Viol { property: "C05".into(), signature: format!("reservoir(k={}) gap law at large n/k", k),
+                    message: format!("k={}, every unit draw = {} (u = {}): at data point {} the gap drawn is {} but the geometric gap for keep-probability k/(i+2) = {:e} is floor(ln u / ln(1-p)) = {} - positions after it are not kept with probability k/n", k, c, u, i + 1, got, p, want),
+                    replay: json!({"structure": "ReservoirSampling", "k": k, "rng": "constant word", "word": word, "unit_draw": c, "data_point": i + 1, "gap_drawn": got, "gap_expected": want}) }));
+            }
+        }
+    }
+    (draws, None)
+}
+
 fn main() {
     let args = parse_args();
     let mut run = Runner::new("C05", &args.tier, "model_checking");
     let thorough = run.thorough();
+    {
+        let n_long = if thorough { 1usize << 27 } else { 1usize << 22 };
+        let mut gl: Vec<(usize, u64)> = vec![];
+        for k in [1usize, 3, 16] {
+            for word in [1u64 << 63, 1u64 << 54, u64::MAX << 54, 3u64 << 61] {
+                gl.push((k, word));
+            }
+        }
+        let res = par_map(&gl, n_threads(), |&(k, w)| gap_law(k, w, n_long));
+        let mut draws = 0u64;
+        let before = run.n_violations();
+        for (d, v) in res {
+            draws += d;
+            if let Some(v) = v {
+                run.violation(v);
+            }
+        }
+        run.ev.set("gap_law_long_streams", json!({"adds_per_run": n_long, "runs": gl.len(), "gaps_compared": draws, "unit_draws": "0.5, 2^-10, 1 - 2^-10, 0.375", "k": [1, 3, 16]}));
+        if run.n_violations() > before {
+            run.ev.set("stopped_after_stage_0", json!("the gap law is violated on a long stream; the exact masses were not computed"));
+            run.ev.set("exhaustive", json!(false));
+            run.finish();
+        }
+    }
     let jobs: Vec<(usize, usize, usize)> = if thorough { vec![(1, 14, 4096), (2, 20, 4096), (3, 26, 4096), (4, 32, 4096), (6, 48, 2048), (8, 64, 2048), (12, 84, 2048), (16, 104, 2048)] } else { vec![(1, 10, 1024), (2, 16, 1024), (3, 22, 1024), (4, 28, 1024), (6, 40, 512)] };
     let mut kt: Vec<(usize, usize, usize, usize)> = vec![];
     for &(k, n, g) in &jobs {
